@@ -76,29 +76,41 @@ def pick (fresh : Bool) (last : Option Nat) (next : Nat) : Nat × Nat :=
   | some b => (b, next)
   | none => (next, next + 1)
 
-def step (f : Facts) (st : St) (op : Op) : St :=
+/-- allocate (or re-use) a buffer and write it: (buffer, next, trace) -/
+def aw (fresh : Bool) (last : Option Nat) (n : Nat) (t : List Ev) : Nat × Nat × List Ev :=
+  ((pick fresh last n).1, (pick fresh last n).2, .write (pick fresh last n).1 :: t)
+
+/-- `verifyAndDecrypt`: a secured chunk is copied and decrypted into another
+    buffer, an unsecured one stays where it is -/
+def plain (fresh : Bool) (sec : Bool) (last : Option Nat) (r1 : Nat × Nat × List Ev) : Nat × Nat × List Ev :=
+  match sec with
+  | true => aw fresh last r1.2.1 r1.2.2
+  | false => r1
+
+/-- the buffers and events of one chunk frame: (frame buffer, plaintext buffer,
+    merge buffer if any, next, trace) -/
+def core (f : Facts) (st : St) (op : Op) : Nat × Nat × Option Nat × Nat × List Ev :=
   -- Conn.Receive
-  let (fb, n1) := pick (f.recvMakesPerCall && f.noBufferFields && f.noPool) st.lastFrame st.next
-  let tr1 := Ev.write fb :: st.trace
+  let r1 := aw (f.recvMakesPerCall && f.noBufferFields && f.noPool) st.lastFrame st.next st.trace
   -- verifyAndDecrypt
-  let (pb, n2, tr2) :=
-    if op.secure then
-      let (pb, n2) := pick (f.decryptCopies && f.noBufferFields && f.noPool) st.lastPlain n1
-      (pb, n2, Ev.write pb :: tr1)
-    else (fb, n1, tr1)
-  let lastPlain := if op.secure then some pb else st.lastPlain
-  if op.final = false then
-    { st with next := n2, lastFrame := some fb, lastPlain := lastPlain,
-              chunks := (op.req, getChunks st.chunks op.req ++ [pb]) :: delChunks st.chunks op.req, trace := tr2 }
-  else
-    let all := getChunks st.chunks op.req ++ [pb]
-    if all.length = 1 then
-      { st with next := n2, lastFrame := some fb, lastPlain := lastPlain,
-                chunks := delChunks st.chunks op.req, trace := Ev.deliver pb :: tr2 }
+  let r2 := plain (f.decryptCopies && f.noBufferFields && f.noPool) op.secure st.lastPlain r1
+  match op.final with
+  | false => (r1.1, r2.1, none, r2.2.1, r2.2.2)
+  | true =>
+    if (getChunks st.chunks op.req ++ [r2.1]).length = 1 then
+      (r1.1, r2.1, none, r2.2.1, Ev.deliver r2.1 :: r2.2.2)
     else
-      let (mb, n3) := pick (f.mergeAppendsFresh && f.noBufferFields && f.noPool) st.lastMerge n2
-      { st with next := n3, lastFrame := some fb, lastPlain := lastPlain, lastMerge := some mb,
-                chunks := delChunks st.chunks op.req, trace := Ev.deliver mb :: Ev.write mb :: tr2 }
+      let r3 := aw (f.mergeAppendsFresh && f.noBufferFields && f.noPool) st.lastMerge r2.2.1 r2.2.2
+      (r1.1, r2.1, some r3.1, r3.2.1, Ev.deliver r3.1 :: r3.2.2)
+
+def step (f : Facts) (st : St) (op : Op) : St :=
+  let c := core f st op
+  { next := c.2.2.2.1, trace := c.2.2.2.2,
+    lastFrame := some c.1,
+    lastPlain := if op.secure then some c.2.1 else st.lastPlain,
+    lastMerge := match c.2.2.1 with | some m => some m | none => st.lastMerge,
+    chunks := if op.final then delChunks st.chunks op.req
+              else (op.req, getChunks st.chunks op.req ++ [c.2.1]) :: delChunks st.chunks op.req }
 
 def run (f : Facts) : St → List Op → St
   | st, [] => st
@@ -125,83 +137,74 @@ instance : (t : List Ev) → Decidable (Frozen t)
 def delivered (t : List Ev) : List Nat :=
   t.filterMap fun | .deliver b => some b | _ => none
 
-/-- invariant: every buffer mentioned anywhere is older than `next` -/
-def Inv (st : St) : Prop :=
-  (∀ b, Ev.deliver b ∈ st.trace → b < st.next) ∧ Frozen st.trace
+/-- every delivered buffer is older than `n`, and nothing delivered was written afterwards -/
+def Good (n : Nat) (t : List Ev) : Prop :=
+  (∀ b, Ev.deliver b ∈ t → b < n) ∧ Frozen t
 
-theorem frozen_write_fresh {t : List Ev} {n b : Nat} (hb : n ≤ b)
-    (h : ∀ x, Ev.deliver x ∈ t → x < n) (hf : Frozen t) : Frozen (.write b :: t) := by
-  refine ⟨?_, hf⟩
-  intro hm
-  have := h b hm
-  omega
+def Inv (st : St) : Prop := Good st.next st.trace
 
-theorem pick_fresh (last : Option Nat) (n : Nat) : pick true last n = (n, n + 1) := rfl
+theorem aw_good {n : Nat} {t : List Ev} (last : Option Nat) (h : Good n t) :
+    Good (aw true last n t).2.1 (aw true last n t).2.2 ∧ (aw true last n t).1 < (aw true last n t).2.1 := by
+  obtain ⟨h1, h2⟩ := h
+  simp only [aw, pick, if_true]
+  refine ⟨⟨?_, ?_, h2⟩, Nat.lt_succ_self _⟩
+  · intro b hb
+    rcases List.mem_cons.mp hb with hb | hb
+    · cases hb
+    · exact Nat.lt_succ_of_lt (h1 b hb)
+  · intro hm
+    have := h1 n hm
+    omega
+
+theorem deliver_good {n : Nat} {t : List Ev} {b : Nat} (h : Good n t) (hb : b < n) :
+    Good n (Ev.deliver b :: t) := by
+  obtain ⟨h1, h2⟩ := h
+  refine ⟨?_, h2⟩
+  intro x hx
+  rcases List.mem_cons.mp hx with hx | hx
+  · cases hx; exact hb
+  · exact h1 x hx
+
+theorem good_mono {n m : Nat} {t : List Ev} (h : Good n t) (hm : n ≤ m) : Good m t :=
+  ⟨fun b hb => Nat.lt_of_lt_of_le (h.1 b hb) hm, h.2⟩
+
+theorem aw_next_ge (fresh : Bool) (last : Option Nat) (n : Nat) (t : List Ev) : n ≤ (aw fresh last n t).2.1 := by
+  simp only [aw, pick]
+  split
+  · exact Nat.le_succ _
+  · split
+    · exact Nat.le_refl _
+    · exact Nat.le_succ _
 
 /-- with all facts true every step keeps the invariant -/
 theorem step_inv (f : Facts) (hf : f.ok = true) (st : St) (op : Op) (h : Inv st) : Inv (step f st op) := by
-  obtain ⟨hlt, hfr⟩ := h
   have h1 : (f.recvMakesPerCall && f.noBufferFields && f.noPool) = true := by
     simp [Facts.ok] at hf; simp [hf]
   have h2 : (f.decryptCopies && f.noBufferFields && f.noPool) = true := by
     simp [Facts.ok] at hf; simp [hf]
   have h3 : (f.mergeAppendsFresh && f.noBufferFields && f.noPool) = true := by
     simp [Facts.ok] at hf; simp [hf]
-  have hw1 : Frozen (.write st.next :: st.trace) := frozen_write_fresh (Nat.le_refl _) hlt hfr
-  have hd1 : ∀ x, Ev.deliver x ∈ (Ev.write st.next :: st.trace) → x < st.next := by
-    intro x hx
-    rcases List.mem_cons.mp hx with hx | hx
-    · cases hx
-    · exact hlt x hx
-  unfold step
-  simp only [h1, h2, h3, pick_fresh]
-  cases hs : op.secure <;> cases hfin : op.final <;> simp only [Bool.false_eq_true, if_false, if_true]
-  -- unsecured, intermediate
-  · exact ⟨fun x hx => Nat.lt_succ_of_lt (hd1 x hx), hw1⟩
-  -- unsecured, final
-  · split
-    · refine ⟨?_, hw1⟩
-      intro x hx
-      rcases List.mem_cons.mp hx with hx | hx
-      · cases hx; exact Nat.lt_succ_self _
-      · exact Nat.lt_succ_of_lt (hd1 x hx)
-    · refine ⟨?_, ?_⟩
-      · intro x hx
-        rcases List.mem_cons.mp hx with hx | hx
-        · cases hx; omega
-        · rcases List.mem_cons.mp hx with hx | hx
-          · cases hx
-          · have := hd1 x hx; omega
-      · exact frozen_write_fresh (n := st.next + 1) (Nat.le_refl _) (fun x hx => Nat.lt_succ_of_lt (hd1 x hx)) hw1
-  -- secured, intermediate
-  · refine ⟨?_, ?_⟩
-    · intro x hx
-      rcases List.mem_cons.mp hx with hx | hx
-      · cases hx
-      · have := hd1 x hx; omega
-    · exact frozen_write_fresh (n := st.next + 1) (Nat.le_refl _) (fun x hx => Nat.lt_succ_of_lt (hd1 x hx)) hw1
-  -- secured, final
-  · have hw2 : Frozen (.write (st.next + 1) :: .write st.next :: st.trace) :=
-      frozen_write_fresh (n := st.next + 1) (Nat.le_refl _) (fun x hx => Nat.lt_succ_of_lt (hd1 x hx)) hw1
-    have hd2 : ∀ x, Ev.deliver x ∈ (Ev.write (st.next + 1) :: Ev.write st.next :: st.trace) → x < st.next + 1 := by
-      intro x hx
-      rcases List.mem_cons.mp hx with hx | hx
-      · cases hx
-      · exact Nat.lt_succ_of_lt (hd1 x hx)
+  obtain ⟨sec, fin, req⟩ := op
+  show Good (core f st ⟨sec, fin, req⟩).2.2.2.1 (core f st ⟨sec, fin, req⟩).2.2.2.2
+  unfold core
+  simp only [h1, h2, h3]
+  obtain ⟨g1, l1⟩ := aw_good st.lastFrame h
+  generalize aw true st.lastFrame st.next st.trace = r1 at g1 l1
+  -- the plaintext buffer
+  have hr2 : Good (plain true sec st.lastPlain r1).2.1 (plain true sec st.lastPlain r1).2.2 ∧
+      (plain true sec st.lastPlain r1).1 < (plain true sec st.lastPlain r1).2.1 := by
+    cases sec
+    · exact ⟨g1, l1⟩
+    · exact aw_good st.lastPlain g1
+  obtain ⟨g2, l2⟩ := hr2
+  generalize plain true sec st.lastPlain r1 = r2 at g2 l2
+  cases fin
+  · exact g2
+  · simp only
     split
-    · refine ⟨?_, hw2⟩
-      intro x hx
-      rcases List.mem_cons.mp hx with hx | hx
-      · cases hx; omega
-      · have := hd2 x hx; omega
-    · refine ⟨?_, ?_⟩
-      · intro x hx
-        rcases List.mem_cons.mp hx with hx | hx
-        · cases hx; omega
-        · rcases List.mem_cons.mp hx with hx | hx
-          · cases hx
-          · have := hd2 x hx; omega
-      · exact frozen_write_fresh (n := st.next + 2) (Nat.le_refl _) (fun x hx => Nat.lt_succ_of_lt (hd2 x hx)) hw2
+    · exact deliver_good g2 l2
+    · obtain ⟨g3, l3⟩ := aw_good st.lastMerge g2
+      exact deliver_good g3 l3
 
 theorem run_inv (f : Facts) (hf : f.ok = true) (st : St) (ops : List Op) (h : Inv st) : Inv (run f st ops) := by
   induction ops generalizing st with
